@@ -315,6 +315,35 @@ func (s *Setup) ParentEdits(b *EnvBudget) []EnvOp {
 	return ops
 }
 
+// Reselect offers edits of a parent's own child selector (spec.selector) while the
+// controller is running: children and orphans change sides.
+func (s *Setup) Reselect(b *EnvBudget) []EnvOp {
+	var ops []EnvOp
+	if b.Left <= 0 || s.Cfg.GenerateSelector {
+		return nil
+	}
+	for _, p := range s.Parents {
+		p := p
+		po := p.Get(s.W)
+		if po == nil {
+			continue
+		}
+		ops = append(ops, EnvOp{"reselect " + p.Name, func(w *World) {
+			b.take()
+			EditObject(w, p.Res, p.NS, p.Name, "user", func(o Object) {
+				cur := getStr(o, "spec", "selector", "matchLabels", "app")
+				next := p.Name + "-alt"
+				if cur == next {
+					next = p.Name
+				}
+				setPath(o, Object{"matchLabels": Object{"app": next}}, "spec", "selector")
+			})
+			w.Probe("parent-selector-changed")
+		}})
+	}
+	return ops
+}
+
 // allChildren lists every object of the controller's child kinds.
 func (s *Setup) allChildren() []Object {
 	var out []Object
